@@ -96,8 +96,10 @@ const c14SkipOverlong = "skipped:C14/reimport-rejects-uri-set-by-transfer"
 const c14Users = 4 // senders; recipients additionally include user 4
 
 var (
-	c14ClassIDs = []string{"clsa", "clsb", "clsc", "cls/D"}
-	c14TokenIDs = []string{"tka", "tkb", "tkc", "tk/d"}
+	// (two class ids extend another one, and one token id extends another: key prefixes without a terminator then
+	// cover the longer name as well)
+	c14ClassIDs = []string{"clsa", "clsb", "clsc", "cls/D", "clsa/v2", "clsab"}
+	c14TokenIDs = []string{"tka", "tkb", "tkc", "tk/d", "tkab"}
 	// odd class ids: too short, upper-case first letter, reserved keywords, the tibc- escape, never issued
 	c14OddClassIDs = []string{"ab", "Clsx", "pegx", "ibc/abc", "htltq", "tibcz", "tibc-X", "nonex", "cls_a", ""}
 	c14OddTokenIDs = []string{"ab", "Tka", "tk_a", "tk-a", ""}
